@@ -91,8 +91,11 @@ claim("C14", "TLC exploration of spec/Coalescent.tla (labelled Kingman jump chai
 claim("C15", "TLC model checking of spec/Spans.tla over TSGen forests (simplified, isolated samples allowed): declarative "
       "Span(u,T,k), SpansSumToNodeSpan, mixture moments in Rat + exact replay into SpansBySamples.get_spans / node_spans "
       "and mixture_expect_and_var / MixturePrior.prior_params + synced per-tree-count mirror on simulated inputs with "
-      "polytomies and missing data",
-      "exhaustive in the TSGen scope; the code compared exactly with TLC's span tables and (close12) mixture moments",
+      "polytomies and missing data + TLC model checking of spec/SpansIncr.tla (first_pass's incremental edge-diff "
+      "bookkeeping as a state machine refining the declarative tables at every breakpoint; named deviations refuted) + "
+      "TLC trace validation (spec/SpansIncrTrace.tla) of loop traces recorded from the real first_pass",
+      "exhaustive in the TSGen scope; the code compared exactly with TLC's span tables and (close12) mixture moments; "
+      "first_pass stepped against the SpansIncr machine (internal state = conformance drift, final tables = statement)",
       TB)
 claim("C16", "TLC model checking of spec/PriorGrid.tla (FillRow + standardize over all abstract nondecreasing CDF tables) + "
       "replay of every table into the real fill_priors with scipy's cdf stubbed by the table + TLC trace validation "
